@@ -32,6 +32,9 @@ theorem step_globals_other (K : Nat → Kind) (s : State) (e : Event) (c : Nat) 
   | poke c' v =>
     simp only [Event.cls] at h
     simp [step, upd, Ne.symm h]
+  | set c' v =>
+    simp only [Event.cls] at h
+    simp [step, upd, Ne.symm h]
 
 /-- An event that does not name object `o` leaves `o`'s record untouched. -/
 theorem step_objs_other (K : Nat → Kind) (s : State) (e : Event) (o : ObjId) (h : e.obj? ≠ some o) :
@@ -48,6 +51,7 @@ theorem step_objs_other (K : Nat → Kind) (s : State) (e : Event) (o : ObjId) (
   | exit o' exc =>
     simp only [step]; split <;> rfl
   | poke c v => rfl
+  | set c v => rfl
 
 theorem run_objs_other (K : Nat → Kind) (h : List Event) (s : State) (o : ObjId)
     (hno : ∀ e ∈ h, e.obj? ≠ some o) : (run K s h).objs o = s.objs o := by
